@@ -5,8 +5,10 @@ import (
 	"fmt"
 	"testing"
 
+	"github.com/scottyw/tetromino/gameboy/cpu"
 	"pgregory.net/rapid"
 
+	"verifharness/machine"
 	"verifharness/refcpu"
 	"verifharness/vf"
 )
@@ -87,6 +89,93 @@ func c02RunHalt(rg *cpuRig, c c02HaltCase) (sig string, err error) {
 			c.Src, c.Op, exp.Cycles, exp.R, o2.Cycles, o2.R)
 	}
 	return "", nil
+}
+
+// c02SpeedCase: a DMG has no speed switch. Writing the registers a Game Boy Color has at FF4D-FF77 (KEY1 first
+// of all) and executing STOP - whatever the cartridge header says about colour support - must leave the length
+// of every later instruction as documented.
+type c02SpeedCase struct {
+	Header uint8  `json:"header"` // cartridge byte 0143: 00, 80 (colour enhanced) or C0 (colour only)
+	Reg    uint16 `json:"reg"`    // FF4C-FF7F, not a DMG register
+	V      uint8  `json:"v"`
+	Stop   bool   `json:"stop"` // STOP is executed after the write (and the CPU woken by a key press)
+}
+
+var c02SpeedCode = []byte{0x00, 0x34, 0x7e, 0xc5, 0xc1, 0x36, 0x5a, 0xcb, 0xc6, 0xcd, 0x40, 0xc0, 0x18, 0x02, 0x00, 0x00, 0xe5, 0xf1, 0x00, 0x00}
+
+func c02RunSpeed(c c02SpeedCase) (sig string, err error) {
+	defer vf.Recover(&sig, &err)
+	if c.Reg < 0xff4c || c.Reg > 0xff7f || (c.Header != 0 && c.Header != 0x80 && c.Header != 0xc0) {
+		return "invalid-case", fmt.Errorf("case outside the domain")
+	}
+	rom := machine.MakeROM(0, 0, 0)
+	rom[0x143] = c.Header
+	m := machine.New(rom, nil, false)
+	m.I.Disable()
+	m.Mp.Write(0xffff, 0)
+	m.Mp.Write(0xff0f, 0)
+	prog := []byte{0x3e, c.V, 0xea, uint8(c.Reg), uint8(c.Reg >> 8)}
+	if c.Stop {
+		prog = append(prog, 0x10, 0x00)
+	}
+	for i, b := range prog {
+		m.Mp.Write(0xc000+uint16(i), b)
+	}
+	for i, b := range c02SpeedCode {
+		m.Mp.Write(0xc020+uint16(i), b)
+	}
+	m.Mp.Write(0xc040, 0xc9) // RET for the CALL
+	regs := cpu.VerifRegs{A: 0, F: 0x80, B: 0x12, C: 0x34, D: 0x56, E: 0x78, H: 0xd1, L: 0x00, SP: 0xdff0, PC: 0xc000}
+	m.CPU.VerifSet(regs)
+	step := func() int {
+		n := 0
+		for {
+			m.Cycle()
+			n++
+			if m.CPU.VerifAtBoundary() || n >= 12 {
+				return n
+			}
+		}
+	}
+	step() // LD A,v
+	step() // LD (reg),A
+	if c.Stop {
+		step()
+		m.CPU.OnInput() // a key press ends STOP
+	}
+	r := m.CPU.VerifGet()
+	r.PC = 0xc020
+	m.CPU.VerifSet(r)
+	for k := 0; k < 14; k++ {
+		pre := cpuFromHook(m.CPU.VerifGet())
+		if pre.PC < 0xc020 || pre.PC > 0xc040 {
+			return "", nil
+		}
+		exp := refcpu.Step(pre, m.Mp.Read, false)
+		if exp.Undefined || exp.Halt || exp.Stop {
+			return "", nil
+		}
+		n := step()
+		if got := cpuFromHook(m.CPU.VerifGet()); n != exp.Cycles || got != exp.R {
+			what := fmt.Sprintf("after writing %02x to %04x", c.V, c.Reg)
+			if c.Stop {
+				what += " and executing STOP"
+			}
+			return "cycles-after-cgb-register-write", fmt.Errorf("cartridge header 0143=%02x, %s: instruction %s at %04x took %d machine cycles (registers then %+v), documented %d (%+v)",
+				c.Header, what, cpuOpName([]byte{m.Mp.Read(pre.PC), m.Mp.Read(pre.PC + 1)}), pre.PC, n, got, exp.Cycles, exp.R)
+		}
+	}
+	return "", nil
+}
+
+func init() {
+	vf.RegisterReplay("C02/speed", func(raw json.RawMessage) (string, error) {
+		var c c02SpeedCase
+		if err := json.Unmarshal(raw, &c); err != nil {
+			return "", err
+		}
+		return c02RunSpeed(c)
+	})
 }
 
 func c02Flavour() lsFlavour { return lsFlavour{flow: 8, mem: 6, raw: 2, irq: 1} }
@@ -233,6 +322,36 @@ func TestC02(t *testing.T) {
 		}
 		c.Bulk("halt-no-idle", n, n)
 		c.Exhaustive("HALT with IME=0 and an enabled request pending x 5 sources x every one-byte register/(HL) opcode as the following instruction: HALT takes 1 machine cycle and the following instruction its documented length")
+	})
+
+	c.Sub("cgb-registers-and-stop", func(t *testing.T) {
+		var n int64
+		idx := 0
+		for _, hd := range []uint8{0x00, 0x80, 0xc0} {
+			for reg := uint16(0xff4c); reg <= 0xff7f; reg++ {
+				for _, v := range []uint8{0x01, 0x81, 0xff, 0x00, 0x7e} {
+					for _, stop := range []bool{true, false} {
+						idx++
+						if !c.Env.Mine(idx) {
+							continue
+						}
+						cas := c02SpeedCase{Header: hd, Reg: reg, V: v, Stop: stop}
+						sig, err := c02RunSpeed(cas)
+						n++
+						if idx%307 == 0 {
+							c.Sample("cgb-registers-and-stop", cas)
+						}
+						if err != nil {
+							if known, first := c.FailFirst("speed", sig, err.Error(), cas); !known && first {
+								t.Errorf("%v", err)
+							}
+						}
+					}
+				}
+			}
+		}
+		c.Bulk("cgb-registers-and-stop", n, n)
+		c.Exhaustive("cartridge header byte 0143 in {00, 80, C0} x every address FF4C-FF7F x 5 values, with and without a following STOP: 14 instructions of eight kinds timed afterwards")
 	})
 
 	c.Rapid("programs", 40000, 1000000, func(rt *rapid.T) {
